@@ -261,7 +261,10 @@ impl InnerFilter {
     }
 
     fn progress_filtertime(&mut self, time: Time, wander: f64, config: &KalmanConfiguration) {
-        debug_assert!(time >= self.filter_time);
+        // Note: time can legitimately lie before the filter time, e.g. when a
+        // measurement's event time (receive time minus a negative correction
+        // field) was ahead of the clock and the clock reports the time of a
+        // frequency change. This is ignored rather than asserted.
         if time < self.filter_time {
             return;
         }
